@@ -156,7 +156,8 @@ def run_check(prop, tier):
         ks = sorted(set(res["K"]))
         pick = ks[:: max(1, len(ks) // 3)][:3] + res["L"][:1]
         samples += [s for s in pick if s not in samples]
-        complete = C.get("groups_unclaimed", 0) == 0 and not C.get("deadline_hit") and not C.get("stopped_early") and C.get("groups_total", -1) >= 0
+        cut_inside = sum(int(v) for kk, v in C.items() if kk.startswith("x_") and kk.endswith("_cut_by_deadline"))
+        complete = C.get("groups_unclaimed", 0) == 0 and not C.get("deadline_hit") and not C.get("stopped_early") and C.get("groups_total", -1) >= 0 and not cut_inside
         desc = "%s: %d groups, %d cases" % (name, C.get("groups_done", 0), C.get("cases", 0))
         desc += ", %.0f s" % C.get("wall_s", 0)
         if complete:
@@ -164,7 +165,7 @@ def run_check(prop, tier):
         else:
             exhaustive = False
             bounds_skipped.append("%s — stopped (%s) with %d of %d groups unexplored, first unexplored group index %d" % (
-                desc, "deadline" if C.get("deadline_hit") else "violation cap" if C.get("stopped_early") else "incomplete",
+                desc, "deadline" if (C.get("deadline_hit") or cut_inside) else "violation cap" if C.get("stopped_early") else "incomplete",
                 C.get("groups_unclaimed", 0), C.get("groups_total", 0), C.get("first_unclaimed_group", -1)))
         if C.get("distinct_saturated"):
             notes.append("distinct-key set saturated in %s: distinct count is a lower bound" % name)
